@@ -13,7 +13,7 @@ import json, os, random, re, shutil
 import vf
 
 PROP = "C05"
-PACK = 20            # generated units per source file
+PACK = 40            # generated units per source file
 JENV = {"JAVA_TOOL_OPTIONS": "-Xss128m"}   # the unparser and evaluator are recursive operators over ~150 tokens
 NPROC = 12
 TMO = 420            # one ego process (the machine is shared and often saturated)
